@@ -23,6 +23,7 @@ type netFate struct {
 	back     time.Duration // response -> client
 	fault    string        // "", status, transport, stall, truncate, mutate
 	status   int
+	ctxError bool // transport fault: the error wraps context.DeadlineExceeded
 	mutation func(path string, body []byte) []byte
 }
 
@@ -153,6 +154,8 @@ func (b *truncBody) Close() error { return nil }
 
 var errSimTransport = errors.New("simulated transport error: connection reset")
 
+var errSimTimeout = fmt.Errorf("simulated transport error: %w (Client.Timeout exceeded while awaiting headers)", context.DeadlineExceeded)
+
 // origin is what answers requests.
 type origin interface {
 	// serve computes the response for a request that has arrived. Asynchronous origins may return
@@ -235,6 +238,12 @@ func (n *cliNet) deliver(nr *netReq) {
 	switch f.fault {
 	case "transport":
 		n.r.Fault("transport-error")
+		if f.ctxError {
+			// what http.Client.Timeout or a proxying RoundTripper produces: an error that wraps a context error although
+			// the client's own context is alive
+			nr.reply <- &netReply{err: errSimTimeout}
+			return
+		}
 		nr.reply <- &netReply{err: errSimTransport}
 		return
 	case "status":
